@@ -184,6 +184,25 @@ def mainExit (fx : Fixes) (fl : Flags) : Run → Nat
   | .aborted => 1                 -- _handle_sigint: errx ("... aborting.") = exit (1)
   | .started hs => if fl.k && hs.any kFails then 1 else exitStatus (dshReturn fx fl hs)
 
+/-! ### the request for the status marker -/
+
+/-- `opt->getstat = ";echo " RC_MAGIC "$?"` -/
+def getstat : Str := ";echo ".toList ++ MAGIC ++ "$?".toList
+
+/-- the command string dsh() hands to the transport for the user's command `cmd` (DSH personality, no DSHPATH):
+    `if (opt->kill_on_fail || opt->ret_remote_rc) opt->getstat = ...;` then `xstrcat (&cmd, opt->getstat)` -/
+def sentCommand (fl : Flags) (cmd : Str) : Str := if fl.k || fl.S then cmd ++ getstat else cmd
+
+/-- what the caller of dsh() sees: `some r` = it returned r; `none` = it did not return: a worker's -k test ended
+    the process (errx).  The driver prints this next to `mainExit`; `mainExit_started` ties the two. -/
+def dshResult (fx : Fixes) (fl : Flags) (hs : List Host) : Option Int :=
+  if fl.k && hs.any kFails then none else some (dshReturn fx fl hs)
+
+theorem mainExit_started (fx : Fixes) (fl : Flags) (hs : List Host) :
+    mainExit fx fl (.started hs) = match dshResult fx fl hs with | none => 1 | some r => exitStatus r := by
+  simp only [mainExit, dshResult]
+  split <;> rfl
+
 /-! ### from outcomes to scripts: the two status channels -/
 
 export ExitSpec (Outcome)
